@@ -3,12 +3,14 @@
 HERE="$(cd "$(dirname "$0")" && pwd)"
 TIER="${1:-quick}"; shift
 SEEDS="${*:-1}"
+BAD=0
 for seed in $SEEDS; do
   for id in $(jq -r '.checks[].property_id' "$HERE/MANIFEST.json"); do
     t0=$(date +%s)
     out=$(VERIF_SEED=$seed timeout 7200 "$HERE/run.sh" "$id" "$TIER" 2>&1); rc=$?
     t1=$(date +%s)
     echo "seed=$seed $id $TIER exit=$rc wall=$((t1-t0))s $(echo "$out" | grep -a -c '^VIOLATION') violations; $(echo "$out" | grep -a "^$id $TIER" | head -1)"
-    [ $rc -ne 0 ] && echo "$out" | grep -a -A2 '^VIOLATION' | head -12
+    [ $rc -ne 0 ] && BAD=1 && echo "$out" | grep -a -A2 '^VIOLATION' | head -12
   done
 done
+exit $BAD
